@@ -1,0 +1,75 @@
+//go:build verif
+
+package fzf
+
+import (
+	"net"
+	"sync"
+)
+
+// Verification hook (build tag verif) for the --listen endpoint: a listener started by
+// startHttpServer ITSELF, so that the API key in force is whatever startHttpServer makes of
+// FZF_API_KEY in the environment, the start-up guard is the real one, and requests travel over a
+// real TCP socket through the real accept loop. No logic beyond a stub action channel and a stub
+// getHandler that record what they were given.
+
+// VerifHTTPServer is a running listener.
+type VerifHTTPServer struct {
+	Port     int // the port it listens on
+	listener net.Listener
+	ch       chan []*action
+	mu       sync.Mutex
+	gets     []getParams
+}
+
+// VerifServeHTTP calls startHttpServer for an already parsed address (FZF_API_KEY is read from the
+// environment by startHttpServer). state is what the getHandler returns. On refusal: nil and the message.
+func VerifServeHTTP(host string, port int, state string) (*VerifHTTPServer, string) {
+	s := &VerifHTTPServer{ch: make(chan []*action, 1)}
+	listener, actualPort, err := startHttpServer(listenAddress{host, port}, s.ch, func(p getParams) string {
+		s.mu.Lock()
+		s.gets = append(s.gets, p)
+		s.mu.Unlock()
+		return state
+	})
+	if err != nil {
+		if listener != nil {
+			listener.Close()
+		}
+		return nil, err.Error()
+	}
+	s.listener = listener
+	s.Port = actualPort
+	return s, ""
+}
+
+// Take returns what reached the action channel and the getHandler since the last call
+// (Response is not filled in: the answer travels over the socket). gets = number of getHandler calls.
+func (s *VerifHTTPServer) Take() (res VerifHTTPResult, gets int) {
+	select {
+	case acts := <-s.ch:
+		res.Delivered = true
+		for _, a := range acts {
+			res.ActionTypes = append(res.ActionTypes, int(a.t))
+			res.ActionArgs = append(res.ActionArgs, a.a)
+		}
+	default:
+	}
+	s.mu.Lock()
+	gets = len(s.gets)
+	if gets > 0 {
+		res.GetCalled = true
+		res.Limit = s.gets[gets-1].limit
+		res.Offset = s.gets[gets-1].offset
+	}
+	s.gets = nil
+	s.mu.Unlock()
+	return res, gets
+}
+
+// Close stops the listener.
+func (s *VerifHTTPServer) Close() {
+	if s.listener != nil {
+		s.listener.Close()
+	}
+}
